@@ -191,6 +191,10 @@ func (d *Dataset) VerifLoadRaft(i int, nodeIds []uint64) error {
 }
 func (d *Dataset) VerifClose() { d.close() }
 
+// VerifAddNode runs partition.addNode(nodeId) on partition i: what applying the catalogue entry
+// "add this node to the partition's replica set" does (on the node itself: the group is loaded).
+func (d *Dataset) VerifAddNode(i int, nodeId uint64) { d.partitions[i].addNode(nodeId) }
+
 // VerifUnloadRaft stops and forgets partition i's raft group, as the allocator does when the
 // dataset is deleted or the replica moves away.
 func (d *Dataset) VerifUnloadRaft(i int) error { return d.partitions[i].unloadRaft() }
